@@ -407,6 +407,20 @@ def main():
     if not re.search(r"m_cachedPosition\.clear\(\)\s*;", rb):
         raise Unsupported("XPathExecutionContextDefault::reset no longer clears m_cachedPosition")
 
+    # --- 6. which XPath::execute overloads evaluate the keys (model: evalKeyAt; Props.C16.nodeSorter_overloads_push_current
+    #        obliges exactly these two, over C11's regenerated prologue table, to push the node as current node)
+    calls = re.findall(r"theXPath->execute\(\s*theNode\s*,\s*thePrefixResolver\s*,\s*theExecutionContext\s*,\s*theResult\s*\)", src)
+    if len(calls) != 2:
+        raise Unsupported("NodeSorter.cpp getResult: expected exactly two calls theXPath->execute(theNode, thePrefixResolver, "
+                          "theExecutionContext, theResult) (number and string), found %d" % len(calls))
+    if not re.search(r"double\s+theResult\s*;\s*theXPath->execute\(", src):
+        raise Unsupported("NodeSorter.cpp getResult (number): the key is no longer evaluated through the double& overload")
+    if not re.search(r"XPathExecutionContext&\s*theExecutionContext\s*,\s*XalanDOMString&\s*theResult\s*\)", src):
+        raise Unsupported("NodeSorter.cpp getResult (string): the key is no longer evaluated through the XalanDOMString& overload")
+    # sortChildren: the selected (unsorted) list is the context node list during the sort
+    if not re.search(r"ContextNodeListPushAndPop\s+\w+\(\s*executionContext\s*,\s*selectedNodeList\s*\)\s*;\s*sorter->sort\(\s*executionContext\s*,\s*sortedNodeList\s*\)", scb0):
+        raise Unsupported("sortChildren: ContextNodeListPushAndPop(executionContext, selectedNodeList) no longer encloses sorter->sort")
+
     lean = """/- GENERATED by translate/c16_nodesorter.py from src/xalanc/XSLT/NodeSorter.cpp — do not edit.
    sentinel literal: %s   compare() at line %d -/
 import XalanModel.C16.Dbl
